@@ -2,4 +2,6 @@
 (* Exhaustive small-constant configuration of DeferredWriter. *)
 EXTENDS DeferredWriter
 MCIntLens == {<<2, 1>>, <<2, 2>>, <<3, 1>>}
+\* (MAX_LEN, text length) of real types for behaviour emission: u8 (3), i8 (4), u16 (5)
+GenIntLens == {<<3, 1>>, <<3, 2>>, <<3, 3>>, <<4, 1>>, <<4, 4>>, <<5, 5>>}
 =============================================================================
